@@ -96,7 +96,7 @@ class Sim:
             return len(v[1]) > 0
         if v[0] in ('ne', 'truthy'):
             return True
-        if v[0] == 'falsy':
+        if v[0] in ('falsy', 'none'):
             return False
         return None
 
@@ -116,6 +116,9 @@ class Sim:
                 for x, y in ((a, b), (b, a)):
                     if y == ('c', None) and x[0] in ('e', 't'):
                         return isinstance(op, (ast.IsNot, ast.NotEq))
+                if b == ('c', None) and isinstance(t.left, ast.Name) and env.get('?' + t.left.id) in (('none',), ('notnone',), ('truthy',)):
+                    is_none = env['?' + t.left.id] == ('none',)
+                    return is_none == isinstance(op, (ast.Is, ast.Eq))
             return None
         if isinstance(t, ast.BoolOp):
             vals = [self.truth(v, env) for v in t.values]
@@ -225,6 +228,10 @@ class Sim:
                     if isinstance(tn, ast.Name) and e2.get(tn.id, ('pre',))[0] in ('x', 'pre'):
                         # the value keeps its provenance; the outcome of the test is remembered beside it until the name is rebound
                         e2['?' + tn.id] = ('truthy',) if (l == 'T') == pos else ('falsy',)
+                    elif isinstance(tn, ast.Compare) and len(tn.ops) == 1 and isinstance(tn.ops[0], (ast.Is, ast.IsNot, ast.Eq, ast.NotEq)) and isinstance(tn.left, ast.Name) \
+                            and isinstance(tn.comparators[0], ast.Constant) and tn.comparators[0].value is None and e2.get(tn.left.id, ('pre',))[0] in ('x', 'pre'):
+                        is_none = ((l == 'T') == pos) == isinstance(tn.ops[0], (ast.Is, ast.Eq))
+                        e2['?' + tn.left.id] = ('none',) if is_none else (e2.get('?' + tn.left.id) if e2.get('?' + tn.left.id) in (('truthy',), ('falsy',)) else ('notnone',))
                 if l == 'exc' and self.hook:
                     # events recorded by the hook for this node (keys '#...') did not happen either
                     pass
